@@ -154,6 +154,76 @@ pub struct M8 {
     h: MProbe,
 }
 
+/// fields carrying what real declarations carry: line and block doc comments (prose that mentions
+/// skipping, ignoring, defaults, agents ...), lint / cfg / doc attributes, visibilities, a raw
+/// identifier, and members named like the generated method's own parameters
+#[derive(AgentSet)]
+pub struct Decorated5 {
+    /// Market makers. They may skip a turn when the book is empty.
+    pub makers: Probe,
+    /** Takers never ignore an update; see the `agents` docs (default: on). */
+    pub(crate) takers: ProbeB,
+    #[allow(dead_code)]
+    r#type: Probe,
+    #[cfg(all())]
+    #[doc = "noise traders, skipped in tests"]
+    env: ProbeB,
+    // a plain comment
+    rng: Probe,
+}
+#[derive(AgentSet)]
+pub struct Plain6 {
+    update: ProbeB,
+    b: ProbeB,
+    c: Probe,
+    d: ProbeB,
+    e: Probe,
+    f: Probe,
+}
+#[derive(AgentSet)]
+pub struct Plain7 {
+    g: Probe,
+    f: Probe,
+    e: ProbeB,
+    d: Probe,
+    c: ProbeB,
+    b: ProbeB,
+    a: Probe,
+}
+#[derive(MarketAgentSet)]
+pub struct MDecorated5 {
+    /// Market makers. They may skip a turn when the book is empty.
+    pub makers: MProbe,
+    /** Takers never ignore an update; see the `agents` docs (default: on). */
+    pub(crate) takers: MProbeB,
+    #[allow(dead_code)]
+    r#type: MProbe,
+    #[cfg(all())]
+    #[doc = "noise traders, skipped in tests"]
+    env: MProbeB,
+    // a plain comment
+    rng: MProbe,
+}
+#[derive(MarketAgentSet)]
+pub struct MPlain6 {
+    update: MProbeB,
+    b: MProbeB,
+    c: MProbe,
+    d: MProbeB,
+    e: MProbe,
+    f: MProbe,
+}
+#[derive(MarketAgentSet)]
+pub struct MPlain7 {
+    g: MProbe,
+    f: MProbe,
+    e: MProbeB,
+    d: MProbe,
+    c: MProbeB,
+    b: MProbeB,
+    a: MProbe,
+}
+
 fn mk_env() -> Env {
     let t = any_u64();
     let step = any_u64();
@@ -378,4 +448,46 @@ pub fn c20_marketagentset_names_and_commas() {
     MarketAgentSet::update(&mut s, &mut env, &mut rng);
     maudit(&env, &rng, 1, &[false]);
     vcover!(env.order((0, 0)).vol == 7, "cover.reached_end");
+}
+
+#[kani::proof]
+#[kani::unwind(12)]
+pub fn c20_agentset_decorated_5_6_7() {
+    let mut env = mk_env();
+    let mut rng = SymRng::new();
+    let mut s = Decorated5 { makers: Probe { tag: 1 }, takers: ProbeB { tag: 2 }, r#type: Probe { tag: 3 }, env: ProbeB { tag: 4 }, rng: Probe { tag: 5 } };
+    AgentSet::update(&mut s, &mut env, &mut rng);
+    audit(&env, &rng, 5, &[false, true, false, true, false]);
+    let mut env = mk_env();
+    let mut rng = SymRng::new();
+    let mut s = Plain6 { update: ProbeB { tag: 1 }, b: ProbeB { tag: 2 }, c: Probe { tag: 3 }, d: ProbeB { tag: 4 }, e: Probe { tag: 5 }, f: Probe { tag: 6 } };
+    AgentSet::update(&mut s, &mut env, &mut rng);
+    audit(&env, &rng, 6, &[true, true, false, true, false, false]);
+    let mut env = mk_env();
+    let mut rng = SymRng::new();
+    let mut s = Plain7 { g: Probe { tag: 1 }, f: Probe { tag: 2 }, e: ProbeB { tag: 3 }, d: Probe { tag: 4 }, c: ProbeB { tag: 5 }, b: ProbeB { tag: 6 }, a: Probe { tag: 7 } };
+    AgentSet::update(&mut s, &mut env, &mut rng);
+    audit(&env, &rng, 7, &[false, false, true, false, true, true, false]);
+    vcover!(env.order(6).vol == 7, "cover.reached_end");
+}
+
+#[kani::proof]
+#[kani::unwind(12)]
+pub fn c20_marketagentset_decorated_5_6_7() {
+    let mut env = mk_menv();
+    let mut rng = SymRng::new();
+    let mut s = MDecorated5 { makers: MProbe { tag: 1 }, takers: MProbeB { tag: 2 }, r#type: MProbe { tag: 3 }, env: MProbeB { tag: 4 }, rng: MProbe { tag: 5 } };
+    MarketAgentSet::update(&mut s, &mut env, &mut rng);
+    maudit(&env, &rng, 5, &[false, true, false, true, false]);
+    let mut env = mk_menv();
+    let mut rng = SymRng::new();
+    let mut s = MPlain6 { update: MProbeB { tag: 1 }, b: MProbeB { tag: 2 }, c: MProbe { tag: 3 }, d: MProbeB { tag: 4 }, e: MProbe { tag: 5 }, f: MProbe { tag: 6 } };
+    MarketAgentSet::update(&mut s, &mut env, &mut rng);
+    maudit(&env, &rng, 6, &[true, true, false, true, false, false]);
+    let mut env = mk_menv();
+    let mut rng = SymRng::new();
+    let mut s = MPlain7 { g: MProbe { tag: 1 }, f: MProbe { tag: 2 }, e: MProbeB { tag: 3 }, d: MProbe { tag: 4 }, c: MProbeB { tag: 5 }, b: MProbeB { tag: 6 }, a: MProbe { tag: 7 } };
+    MarketAgentSet::update(&mut s, &mut env, &mut rng);
+    maudit(&env, &rng, 7, &[false, false, true, false, true, true, false]);
+    vcover!(env.order((0, 6)).vol == 7, "cover.reached_end");
 }
